@@ -35,14 +35,14 @@ Definition m_pl : str := [112;108].
 Definition lex1_body (c : N) (s : str) : option (tok * nat) :=
   let ds := fst (span_digits s) in
   match ds with
-  | _ :: _ => Some (TNum (Z.min (value ds) i64max), length ds)
+  | _ :: _ => Some (TNum (cvalue i64max ds), length ds)
   | [] =>
       if (c =? 46) || (c =? 95) then Some (TNum 0, 1%nat)
       else if prefix_ci m_nb s then
         let d2 := fst (span_digits (skipn 2 s)) in
         Some (TRev (match d2 with
                     | [] => 0%Z
-                    | _ => if (value d2 <=? i64max)%Z then value d2 else 0%Z
+                    | _ => let v := cvalue (i64max + 1) d2 in if (v <=? i64max)%Z then v else 0%Z
                     end), (2 + length d2)%nat)
       else if prefix_ci m_alpha s then Some (TNum (-3), 5%nat)
       else if prefix_ci m_beta s then Some (TNum (-2), 4%nat)
